@@ -6,6 +6,10 @@ OnStageChange/OnStepComplete, the `onStepStageFailure` closure, the deadlock-det
 initial `notifySteps` of `Execute`.  Each runs to completion under the lock, so a run is a *linear history
 of events*, and the loop is the fold of `react` over that history.
 
+`onStageComplete` is reached from two callbacks: OnStageChange (`Event.stageChange`, `newStage != nil`) and
+OnStepComplete (`Event.stepComplete`, `newStage == nil`): only the latter declares the stages the step did not go
+through impossible (`markRemaining`, repair of finding F11); both record the finished stage in `finished`.
+
 Every `panic(...)` in workflow.go is an `Action.panic site`; a send on the bounded error channel that would
 block while the lock is held is `Action.stuck`; neither is ever hidden behind a default.
 -/
@@ -73,6 +77,10 @@ inductive Event where
   /-- OnStageChange / OnStepComplete: `prev` finished, optionally with an output. `busy` = some step is in state
       starting or running when the deadlock check at the end of the callback polls `State()`. -/
   | stageChange (step : String) (prev : Option String) (out : Option (String × Val)) (busy : Bool)
+  /-- OnStepComplete: the step is complete (`newStage == nil` in `onStageComplete`); its last stage `prev` (a plain
+      string in this callback, so always given) finished, optionally with an output.  The stages the step did not go
+      through are declared impossible (`markRemainingStagesUnresolvable`).  `busy` as for `stageChange`. -/
+  | stepComplete (step : String) (prev : String) (out : Option (String × Val)) (busy : Bool)
   /-- OnStepStageFailure -/
   | stageFail (step stage : String)
   /-- the retry goroutine of `checkForDeadlocks` fires with `retries` left -/
@@ -90,6 +98,9 @@ structure LoopState where
   cancelled : Bool := false
   result : Option (String × Val) := none
   dead : Bool := false        -- panicked or blocked forever while holding the lock
+  /-- `finishedStages`: the (step, stage) pairs of the stages the steps have gone through (the Go map of sets
+      `map[string]map[string]struct{}` as one list of pairs) -/
+  finished : List (String × String) := []
   deriving Repr
 
 abbrev Order := List (String × St) → List (String × St)
@@ -234,6 +245,21 @@ def markStageUnres (step stage : String) (r : R) : R :=
     | .ok g => ({ r.1 with dag := g }, r.2)
     | .error _ => die r (.panic .markStageNodeUnresolvable)
 
+/-- the stage ids of the lifecycle of `step`, in lifecycle order (`l.lifecycles[stepID].Stages`) -/
+def Prepared.stagesOf (P : Prepared) (step : String) : List String :=
+  match lookup step P.stages with
+  | none => []
+  | some sts => sts.map (·.1)
+
+/-- the body of the `for` loop of `markRemainingStagesUnresolvable` for one stage of the lifecycle -/
+def markRemainingOne (P : Prepared) (step : String) (r : R) (stage : String) : R :=
+  if r.1.finished.contains (step, stage) then r      -- `continue`
+  else markStageUnres step stage (markOutputsUnres P step stage none r)
+
+/-- `markRemainingStagesUnresolvable(step)`: a completed step will not go through the stages it has not gone through -/
+def markRemaining (P : Prepared) (step : String) (r : R) : R :=
+  (P.stagesOf step).foldl (markRemainingOne P step) r
+
 /-- `serializedOutput`: a Go struct output is stored as the map of its (JSON) fields -/
 def serializedOutput : Val → Val
   | .gostruct _ kvs => .map kvs
@@ -334,9 +360,15 @@ def LoopState.init (P : Prepared) : LoopState :=
   { dag := P.dag.clone, data := .map [],
     waitingOutputs := (P.items.filter (fun p => p.2.kind = .output)).map (·.1) }
 
-/-- `onStageComplete(step, prev, outID, out, wg)` without the deferred deadlock check -/
+/-- the end of `onStageComplete`: `if newStage == nil { l.markRemainingStagesUnresolvable(stepID) }; l.notifySteps()`
+    (a panic while marking leaves the loop dead: `notifySteps` does nothing then) -/
+def finishStage (P : Prepared) (fns : Fns) (ord : Order) (step : String) (complete : Bool) (r : R) : R :=
+  notifySteps P fns ord (notifyFuel P) (if complete then markRemaining P step r else r)
+
+/-- `onStageComplete(step, prev, outID, out, newStage, wg)` without the deferred deadlock check;
+    `complete` = `newStage == nil` (the call comes from OnStepComplete) -/
 def onStageCompleteBody (P : Prepared) (fns : Fns) (ord : Order) (step prev : String)
-    (out : Option (String × Val)) (r : R) : R :=
+    (out : Option (String × Val)) (complete : Bool) (r : R) : R :=
   let sn := stageNodeId step prev
   if !(r.1.dag.has sn) then doCancel (sendErr P.errCap r .getStageNode)
   else match r.1.dag.resolve sn .resolved with
@@ -344,9 +376,10 @@ def onStageCompleteBody (P : Prepared) (fns : Fns) (ord : Order) (step prev : St
     | .error (.panicNoConnection _ _) => die r (.panic .dgraphInternal)
     | .error _ => doCancel (sendErr P.errCap r .resolveStageNode)
     | .ok g =>
-      let r1 : R := ({ r.1 with dag := g }, r.2)
+      -- `l.finishedStages[stepID][*previousStage] = struct{}{}`
+      let r1 : R := ({ r.1 with dag := g, finished := (step, prev) :: r.1.finished }, r.2)
       match out with
-      | none => notifySteps P fns ord (notifyFuel P) r1
+      | none => finishStage P fns ord step complete r1
       | some (oid, v) =>
         let on := outputNodeId step prev oid
         if !(r1.1.dag.has on) then doCancel (sendErr P.errCap r1 .getOutputNode)
@@ -358,7 +391,7 @@ def onStageCompleteBody (P : Prepared) (fns : Fns) (ord : Order) (step prev : St
             let r2 := markOutputsUnres P step prev (some oid) ({ r1.1 with dag := g2 }, r1.2)
             if r2.1.dead then r2 else
             let r3 : R := ({ r2.1 with data := setStageData r2.1.data step prev oid v }, r2.2)
-            notifySteps P fns ord (notifyFuel P) r3
+            finishStage P fns ord step complete r3
 
 def react (P : Prepared) (fns : Fns) (ord : Order) (s : LoopState) (e : Event) : LoopState × List Action :=
   if s.dead then (s, []) else
@@ -373,8 +406,11 @@ def react (P : Prepared) (fns : Fns) (ord : Order) (s : LoopState) (e : Event) :
     match prev with
     | none => (s, [])
     | some p =>
-      let r := onStageCompleteBody P fns ord step p out (s, [])
+      let r := onStageCompleteBody P fns ord step p out false (s, [])
       checkDeadlock P 3 busy r
+  | .stepComplete step prev out busy =>
+    let r := onStageCompleteBody P fns ord step prev out true (s, [])
+    checkDeadlock P 3 busy r
   | .stageFail step stage =>
     let r := markOutputsUnres P step stage none (s, [])
     let r := markStageUnres step stage r
